@@ -44,7 +44,8 @@ def main():
     mod = importlib.import_module(modname)
     try:
         if a.replay:
-            return mod.replay(pid, a.replay)
+            from . import replay as rp
+            return rp.replay(pid, a.replay)
         return mod.run(pid, tier, seed)
     except SystemExit:
         raise
